@@ -171,6 +171,19 @@ ENGINES['esweep'] = {
               'application side: mock sinks (accept / refuse flow definitions), recording probe'],
 }
 
+ENGINES['ebufps'] = {
+    'src': ['harness/ebufps.c'],
+    'sim_src': ['sim/alloc.c', 'sim/umem_sim.c'],
+    'repo_src': ['lib/upipe/ubuf_mem_common.c', 'lib/upipe/ubuf_pic_mem.c', 'lib/upipe/ubuf_pic_common.c',
+                 'lib/upipe/ubuf_sound_mem.c', 'lib/upipe/ubuf_sound_common.c', 'lib/upipe/ubuf_mem.c', 'lib/upipe/ubuf_pic.c',
+                 'lib/upipe/ubuf_block_mem.c', 'lib/upipe/uref_pic_flow.c', 'lib/upipe/udict_inline.c'],
+    'track_alloc': True,
+    'real': ['lib/upipe/ubuf_pic_mem.c', 'lib/upipe/ubuf_pic_common.c', 'lib/upipe/ubuf_sound_mem.c', 'lib/upipe/ubuf_sound_common.c',
+             'lib/upipe/ubuf_mem_common.c', 'include/upipe/ubuf_pic.h', 'include/upipe/ubuf_sound.h', 'include/upipe/ubuf_mem_common.h'],
+    'stubs': ['buffer memory allocator (sim/umem_sim.c: accounting, red zones, injected failures)',
+              'malloc of the repo objects (sim/alloc.c: accounting + injected failures at allow-listed callers)'],
+}
+
 SC = ('interleavings are explored under sequential consistency at the yield points of DESIGN.md 2.1 '
       '(every uatomic operation, every plain ring-element access, every descriptor read/write)')
 
@@ -230,7 +243,7 @@ PROPS['C02'] = {
     'rule': ('as C03 with map-for-write operations (15% of the plan): a granted write changes the byte string of that handle only, every '
              'other handle must still read its own byte string; a handle that is the only owner of never-sliced memory must be granted. '
              'Distinct = distinct plan hash.'),
-    'assumptions': BUF_ASSUME + ['picture and sound buffers are not driven by this check yet (block buffers only)'],
+    'assumptions': BUF_ASSUME + ['second engine (ebufps): picture (planar 4:2:0, grey) and sound (planar 16-bit) buffers: alloc, dup, resize inside the area and into the margins, write mappings of sub-rectangles, copy, replace, free; model = grid of known octets per memory area + owner count; resize requests whose meaning is window arithmetic (negative sizes, offsets beyond the end of a sound buffer) are not generated'],
 }
 PROPS['C10'] = {
     'engine': 'ebuf', 'quick_time': 25, 'thorough_time': 600,
@@ -263,6 +276,8 @@ PROPS['C12'] = {'engine': 'epipe', 'engines': ['epipe', 'ethread'], 'quick_time'
     'assumptions': ['in-thread chains only: the cross-queue part of C12 is not covered by this check',
                     'request types exercised: sink latency and flow format']}
 PROPS['C20']['engines'] = ['epipe', 'estream']
+PROPS['C02']['engines'] = ['ebuf', 'ebufps']
+PROPS['C02']['quick_time'] = 30
 PROPS['C01']['engines'] = ['epipe', 'ethread', 'esweep']
 PROPS['C01']['quick_time'] = 45
 PROPS['C04']['engines'] = ['epipe', 'esweep']
@@ -391,7 +406,7 @@ LEVEL_TEXT = {
     'C05': 'Seeded pipeline histories against a reference model of every catalogue pipe: per sink the delivered sequence (numbers, payload, attributes, dates) equals the model, in order, exactly once; queues deliver held buffers first and in order, flush may only lose what was not delivered yet. Evidence, not proof.',
     'C20': 'Seeded pipeline histories with getter calls at random instants: getters return what the model says was set (a failed setter leaves the previous value), and a differential run without the getter calls must show identical histories. Evidence, not proof.',
     'C03': 'Seeded histories of block operations against a plain byte-string model, with allocation failures injected inside operations and out-of-range arguments; every handle is re-read (random probe first, then segment by segment) after every operation. Found and fixed seven defects. Evidence, not proof.',
-    'C02': 'Same engine with write mappings: a granted write may only change the handle it was issued on; exclusive never-sliced memory must be writable. Evidence, not proof.',
+    'C02': 'Block buffers: the C03 engine with write mappings (a granted write may only change the handle it was issued on; exclusive never-sliced memory must be writable). Picture and sound buffers: seeded histories of alloc / dup / resize / map-for-write / copy / replace / free against a model of areas, owners and windows: a write mapping is granted iff the area has one owner, every handle always reads what the model holds. Evidence, not proof.',
     'C10': 'Seeded histories of dictionary operations against a typed-map model, with storage-growth failures injected inside set/import/dup. Evidence, not proof.',
     'C13': 'Seeded exploration of operation histories on 1-3 pumps with up to 3 blockers each; after every operation the back-end activity must equal started && no blocker, every back-end call must be the expected one with the status in force, callbacks only run for active pumps, free notifies each outstanding blocker exactly once. Evidence, not proof.',
     'C07': 'Seeded exploration of interleavings of small client programs on the real ulifo/ufifo/upool at the granularity of single atomic operations and plain ring accesses; every history is checked for linearizability against a sequential model. Evidence, not proof: a clean batch of some millions of distinct schedules; found and fixed a real ABA defect in uring_fifo_pop.',
